@@ -1,0 +1,173 @@
+//go:build verif
+
+// Contracts for the deductive checker in /verif (govc). Comment-only; ignored without the
+// "verif" build tag.
+//
+// Ghost state of the bank: auth.bal[a] are the coins of account a (all-zero amounts if the
+// account does not exist), auth.has[a] whether an account record exists, auth.supply the
+// recorded total supply. amt(c, d) is the amount of denomination d in the coin set c.
+//
+// C02 (token conservation) is the invariant   forall d: amt(auth.supply, d) == SUM_a amt(auth.bal[a], d).
+// It is preserved because every function below changes balances and supply only as its
+// contract states: sends move an amount between two balances (total unchanged, supply
+// unchanged), MintCoins adds exactly amt to one balance and to the supply, BurnCoins removes
+// exactly amt from both, and a failed call changes nothing. Everything else in the bank is
+// framed: a balance or the supply that is not listed under `modifies` is proved unchanged.
+
+package keeper
+
+//@ ghost auth.bal (Array Bytes Coins)
+//@ ghost auth.has (Array Bytes Bool)
+//@ ghost auth.supply Coins
+
+// Bank representation invariant: absent accounts hold nothing, every balance is a valid
+// (non-negative) coin set. Assumed at entry of every bank function, proved at its exit, and
+// demanded of every caller.
+//@ invariant bankinv: (forall a Bytes :: !auth.has[a] ==> (forall d Str :: amt(auth.bal[a], d) == 0)) && (forall a Bytes :: valid(auth.bal[a]))
+
+// ---------------------------------------------------------------- storage accessors (assumed: amino + KVStore)
+
+//@ assumed func (k Keeper) GetAccount(ctx sdk.Ctx, addr sdk.Address) (acc exported.Account)
+//@   mode value
+//@   modifies acct.id, acct.next, acct.coins, acct.addr
+//@   ensures (acc == nil) == !auth.has[addr]
+//@   ensures acc != nil ==> acct.coins[acc] == auth.bal[addr] && acct.addr[acc] == addr && acct.id[acc] == old(acct.next) && acct.next == old(acct.next) + 1
+//@   ensures forall x Iface :: {acct.coins[x]} acct.id[x] < old(acct.next) ==> acct.coins[x] == old(acct.coins[x]) && acct.addr[x] == old(acct.addr[x]) && acct.id[x] == old(acct.id[x])
+//@   ensures acc == nil ==> acct.next == old(acct.next)
+//@
+//@ assumed func (k Keeper) SetAccount(ctx sdk.Ctx, acc exported.Account)
+//@   mode value
+//@   requires acc != nil
+//@   modifies auth.bal[acct.addr[acc]], auth.has[acct.addr[acc]]
+//@   ensures auth.bal[acct.addr[acc]] == acct.coins[acc] && auth.has[acct.addr[acc]]
+//@
+//@ assumed func (k Keeper) NewAccountWithAddress(ctx sdk.Ctx, addr sdk.Address) (acc exported.Account, err error)
+//@   mode value
+//@   modifies acct.id, acct.next, acct.coins, acct.addr
+//@   ensures err == nil
+//@   ensures err == nil ==> acc != nil && acct.addr[acc] == addr && (forall d Str :: amt(acct.coins[acc], d) == 0) && acct.id[acc] == old(acct.next) && acct.next == old(acct.next) + 1
+//@   ensures forall x Iface :: {acct.coins[x]} acct.id[x] < old(acct.next) ==> acct.coins[x] == old(acct.coins[x]) && acct.addr[x] == old(acct.addr[x]) && acct.id[x] == old(acct.id[x])
+//@
+//@ assumed func (k Keeper) GetSupply(ctx sdk.Ctx) (supply exported.SupplyI)
+//@   mode value
+//@   ensures supply != nil && sup_total(supply) == auth.supply
+//@
+//@ assumed func (k Keeper) SetSupply(ctx sdk.Ctx, supply exported.SupplyI)
+//@   mode value
+//@   modifies auth.supply
+//@   ensures auth.supply == sup_total(supply)
+//@
+//@ assumed func (k Keeper) GetModuleAddress(moduleName string) (r sdk.Address)
+//@   mode value
+//@   ensures (r == nil) == !modreg(moduleName)
+//@   ensures modreg(moduleName) ==> r == modaddr(moduleName)
+//@
+// GetModuleAccount creates the (empty) module account record on first use; amounts are unchanged.
+//@ assumed func (k Keeper) GetModuleAccount(ctx sdk.Ctx, moduleName string) (macc exported.ModuleAccountI)
+//@   mode value
+//@   modifies acct.id, acct.next, acct.coins, acct.addr, auth.has[modaddr(moduleName)]
+//@   ensures (macc == nil) == !modreg(moduleName)
+//@   ensures macc != nil ==> acct.coins[macc] == auth.bal[modaddr(moduleName)] && acct.addr[macc] == modaddr(moduleName) && auth.has[modaddr(moduleName)]
+//@   ensures macc != nil ==> acct.id[macc] == old(acct.next) && acct.next == old(acct.next) + 1 && (forall p Str :: acct_perm(macc, p) == modperm(moduleName, p))
+//@   ensures macc == nil ==> auth.has[modaddr(moduleName)] == old(auth.has[modaddr(moduleName)])
+//@   ensures forall x Iface :: {acct.coins[x]} acct.id[x] < old(acct.next) ==> acct.coins[x] == old(acct.coins[x]) && acct.addr[x] == old(acct.addr[x]) && acct.id[x] == old(acct.id[x])
+
+// ---------------------------------------------------------------- bank.go (verified)
+
+//@ func (k Keeper) GetCoins(ctx sdk.Ctx, addr sdk.Address) (r sdk.Coins)
+//@   props C02
+//@   uses bankinv
+//@   modifies acct.id, acct.next, acct.coins, acct.addr
+//@   ensures (forall d Str :: amt(r, d) == amt(auth.bal[addr], d)) && valid(r)
+//@
+//@ func (k Keeper) SetCoins(ctx sdk.Ctx, addr sdk.Address, amt sdk.Coins) (err sdk.Error)
+//@   props C02
+//@   modifies acct.id, acct.next, acct.coins, acct.addr, auth.bal[addr], auth.has[addr]
+//@   dead ret2 ret3
+//@   ensures [success] valid(amt) ==> err == nil
+//@   ensures err == nil ==> auth.bal[addr] == amt && auth.has[addr] && valid(amt)
+//@   ensures err != nil ==> auth.bal[addr] == old(auth.bal[addr]) && auth.has[addr] == old(auth.has[addr])
+//@
+//@ func (k Keeper) SubtractCoins(ctx sdk.Ctx, addr sdk.Address, amt sdk.Coins) (r sdk.Coins, err sdk.Error)
+//@   props C02
+//@   uses bankinv
+//@   modifies acct.id, acct.next, acct.coins, acct.addr, auth.bal[addr], auth.has[addr]
+//@   ensures [success] valid(amt) && (forall d Str :: amt(old(auth.bal[addr]), d) >= amt(amt, d)) ==> err == nil
+//@   ensures err == nil ==> valid(amt) && (forall d Str :: amt(old(auth.bal[addr]), d) >= amt(amt, d))
+//@   ensures err == nil ==> (forall d Str :: amt(auth.bal[addr], d) == amt(old(auth.bal[addr]), d) - amt(amt, d)) && valid(auth.bal[addr]) && auth.has[addr]
+//@   ensures err != nil ==> auth.bal[addr] == old(auth.bal[addr]) && auth.has[addr] == old(auth.has[addr])
+//@
+//@ func (k Keeper) AddCoins(ctx sdk.Ctx, addr sdk.Address, amt sdk.Coins) (r sdk.Coins, err sdk.Error)
+//@   props C02
+//@   uses bankinv
+//@   modifies acct.id, acct.next, acct.coins, acct.addr, auth.bal[addr], auth.has[addr]
+//@   ensures [success] valid(amt) ==> err == nil
+//@   ensures err == nil ==> valid(amt) && (forall d Str :: amt(auth.bal[addr], d) == amt(old(auth.bal[addr]), d) + amt(amt, d)) && valid(auth.bal[addr]) && auth.has[addr]
+//@   ensures err != nil ==> auth.bal[addr] == old(auth.bal[addr]) && auth.has[addr] == old(auth.has[addr])
+//@
+// SendCoins: a successful send moves exactly amt (nothing when sender == recipient); a failed
+// send that got past the debit can only fail while creating the recipient account.
+//@ func (k Keeper) SendCoins(ctx sdk.Ctx, fromAddr sdk.Address, toAddr sdk.Address, amt sdk.Coins) (err sdk.Error)
+//@   props C02
+//@   uses bankinv
+//@   modifies acct.id, acct.next, acct.coins, acct.addr, auth.bal[fromAddr], auth.has[fromAddr], auth.bal[toAddr], auth.has[toAddr]
+//@   dead ret2
+//@   ensures [success] valid(amt) && (forall d Str :: amt(old(auth.bal[fromAddr]), d) >= amt(amt, d)) ==> err == nil
+//@   ensures [atomic] err != nil ==> auth.bal[fromAddr] == old(auth.bal[fromAddr]) && auth.bal[toAddr] == old(auth.bal[toAddr])
+//@   ensures err == nil && fromAddr != toAddr ==> (forall d Str :: amt(auth.bal[fromAddr], d) == amt(old(auth.bal[fromAddr]), d) - amt(amt, d) && amt(auth.bal[toAddr], d) == amt(old(auth.bal[toAddr]), d) + amt(amt, d))
+//@   ensures err == nil && fromAddr == toAddr ==> (forall d Str :: amt(auth.bal[fromAddr], d) == amt(old(auth.bal[fromAddr]), d))
+//@   ensures err == nil ==> valid(amt) && (forall d Str :: amt(old(auth.bal[fromAddr]), d) >= amt(amt, d))
+//@   ensures auth.supply == old(auth.supply)
+//@
+//@ func (k Keeper) MintCoins(ctx sdk.Ctx, moduleName string, amt sdk.Coins) (err sdk.Error)
+//@   props C02
+//@   uses bankinv
+//@   modifies acct.id, acct.next, acct.coins, acct.addr, auth.bal[modaddr(moduleName)], auth.has[modaddr(moduleName)], auth.supply
+//@   ensures [success] modreg(moduleName) && modperm(moduleName, "minter") && valid(amt) ==> err == nil
+//@   ensures err == nil ==> modreg(moduleName) && modperm(moduleName, "minter")
+//@   ensures err == nil ==> (forall d Str :: amt(auth.bal[modaddr(moduleName)], d) == amt(old(auth.bal[modaddr(moduleName)]), d) + amt(amt, d))
+//@   ensures err == nil ==> (forall d Str :: amt(auth.supply, d) == amt(old(auth.supply), d) + amt(amt, d))
+//@   ensures err != nil ==> auth.bal[modaddr(moduleName)] == old(auth.bal[modaddr(moduleName)]) && auth.supply == old(auth.supply)
+//@
+//@ func (k Keeper) BurnCoins(ctx sdk.Ctx, moduleName string, amt sdk.Coins) (err sdk.Error)
+//@   props C02
+//@   uses bankinv
+//@   modifies acct.id, acct.next, acct.coins, acct.addr, auth.bal[modaddr(moduleName)], auth.has[modaddr(moduleName)], auth.supply
+//@   ensures [success] modreg(moduleName) && modperm(moduleName, "burner") && valid(amt) && (forall d Str :: amt(old(auth.bal[modaddr(moduleName)]), d) >= amt(amt, d)) ==> err == nil
+//@   ensures err == nil ==> modreg(moduleName) && modperm(moduleName, "burner")
+//@   ensures err == nil ==> (forall d Str :: amt(auth.bal[modaddr(moduleName)], d) == amt(old(auth.bal[modaddr(moduleName)]), d) - amt(amt, d))
+//@   ensures err == nil ==> (forall d Str :: amt(auth.supply, d) == amt(old(auth.supply), d) - amt(amt, d))
+//@   ensures err != nil ==> auth.bal[modaddr(moduleName)] == old(auth.bal[modaddr(moduleName)]) && auth.supply == old(auth.supply)
+//@
+//@ func (k Keeper) SendCoinsFromModuleToAccount(ctx sdk.Ctx, senderModule string, recipientAddr sdk.Address, amt sdk.Coins) (err sdk.Error)
+//@   props C02
+//@   uses bankinv
+//@   modifies acct.id, acct.next, acct.coins, acct.addr, auth.bal[modaddr(senderModule)], auth.has[modaddr(senderModule)], auth.bal[recipientAddr], auth.has[recipientAddr]
+//@   ensures [success] modreg(senderModule) && valid(amt) && (forall d Str :: amt(old(auth.bal[modaddr(senderModule)]), d) >= amt(amt, d)) ==> err == nil
+//@   ensures [atomic] err != nil ==> auth.bal[modaddr(senderModule)] == old(auth.bal[modaddr(senderModule)]) && auth.bal[recipientAddr] == old(auth.bal[recipientAddr])
+//@   ensures err == nil ==> modreg(senderModule)
+//@   ensures err == nil && modaddr(senderModule) != recipientAddr ==> (forall d Str :: amt(auth.bal[modaddr(senderModule)], d) == amt(old(auth.bal[modaddr(senderModule)]), d) - amt(amt, d) && amt(auth.bal[recipientAddr], d) == amt(old(auth.bal[recipientAddr]), d) + amt(amt, d))
+//@   ensures err == nil && modaddr(senderModule) == recipientAddr ==> (forall d Str :: amt(auth.bal[recipientAddr], d) == amt(old(auth.bal[recipientAddr]), d))
+//@   ensures auth.supply == old(auth.supply)
+//@
+//@ func (k Keeper) SendCoinsFromAccountToModule(ctx sdk.Ctx, senderAddr sdk.Address, recipientModule string, amt sdk.Coins) (err sdk.Error)
+//@   props C02
+//@   uses bankinv
+//@   modifies acct.id, acct.next, acct.coins, acct.addr, auth.bal[modaddr(recipientModule)], auth.has[modaddr(recipientModule)], auth.bal[senderAddr], auth.has[senderAddr]
+//@   ensures [success] modreg(recipientModule) && valid(amt) && (forall d Str :: amt(old(auth.bal[senderAddr]), d) >= amt(amt, d)) ==> err == nil
+//@   ensures [atomic] err != nil ==> auth.bal[modaddr(recipientModule)] == old(auth.bal[modaddr(recipientModule)]) && auth.bal[senderAddr] == old(auth.bal[senderAddr])
+//@   ensures err == nil ==> modreg(recipientModule)
+//@   ensures err == nil && modaddr(recipientModule) != senderAddr ==> (forall d Str :: amt(auth.bal[senderAddr], d) == amt(old(auth.bal[senderAddr]), d) - amt(amt, d) && amt(auth.bal[modaddr(recipientModule)], d) == amt(old(auth.bal[modaddr(recipientModule)]), d) + amt(amt, d))
+//@   ensures err == nil && modaddr(recipientModule) == senderAddr ==> (forall d Str :: amt(auth.bal[senderAddr], d) == amt(old(auth.bal[senderAddr]), d))
+//@   ensures auth.supply == old(auth.supply)
+//@
+//@ func (k Keeper) SendCoinsFromModuleToModule(ctx sdk.Ctx, senderModule, recipientModule string, amt sdk.Coins) (err sdk.Error)
+//@   props C02
+//@   uses bankinv
+//@   modifies acct.id, acct.next, acct.coins, acct.addr, auth.bal[modaddr(senderModule)], auth.has[modaddr(senderModule)], auth.bal[modaddr(recipientModule)], auth.has[modaddr(recipientModule)]
+//@   ensures [success] modreg(senderModule) && modreg(recipientModule) && valid(amt) && (forall d Str :: amt(old(auth.bal[modaddr(senderModule)]), d) >= amt(amt, d)) ==> err == nil
+//@   ensures [atomic] err != nil ==> auth.bal[modaddr(senderModule)] == old(auth.bal[modaddr(senderModule)]) && auth.bal[modaddr(recipientModule)] == old(auth.bal[modaddr(recipientModule)])
+//@   ensures err == nil ==> modreg(senderModule) && modreg(recipientModule)
+//@   ensures err == nil && modaddr(senderModule) != modaddr(recipientModule) ==> (forall d Str :: amt(auth.bal[modaddr(senderModule)], d) == amt(old(auth.bal[modaddr(senderModule)]), d) - amt(amt, d) && amt(auth.bal[modaddr(recipientModule)], d) == amt(old(auth.bal[modaddr(recipientModule)]), d) + amt(amt, d))
+//@   ensures err == nil && modaddr(senderModule) == modaddr(recipientModule) ==> (forall d Str :: amt(auth.bal[modaddr(senderModule)], d) == amt(old(auth.bal[modaddr(senderModule)]), d))
+//@   ensures auth.supply == old(auth.supply)
